@@ -735,12 +735,12 @@ func verifC18Level2(m *vk.Monitor, env *verifC18Env, classes []verifC18Sniff, ds
 	cp := env.cp
 	prog := &vk.RProg{
 		Rules: []vk.RRule{
-			{Conds: []vk.RCond{{Func: "domain", Params: []vk.RParam{{Key: "full", Val: verifC18Known}}}}, Out: vk.ROut{Name: "g1"}},
-			{Conds: []vk.RCond{{Func: "domain", Params: []vk.RParam{{Key: "suffix", Val: verifC18Verified}}}}, Out: vk.ROut{Name: "g2"}},
+			{Conds: []vk.RCond{{Func: "domain", Params: []vk.RParam{{Key: "full", Val: verifC18Known}}}}, Out: vk.ROut{Name: verifGroups[1]}},
+			{Conds: []vk.RCond{{Func: "domain", Params: []vk.RParam{{Key: "suffix", Val: verifC18Verified}}}}, Out: vk.ROut{Name: verifGroups[2]}},
 			{Conds: []vk.RCond{{Func: "domain", Params: []vk.RParam{{Key: "keyword", Val: "unknown"}}}}, Out: vk.ROut{Name: "direct"}},
-			{Conds: []vk.RCond{{Func: "domain", Params: []vk.RParam{{Key: "suffix", Val: "known-h.example"}}}}, Out: vk.ROut{Name: "g3"}},
+			{Conds: []vk.RCond{{Func: "domain", Params: []vk.RParam{{Key: "suffix", Val: "known-h.example"}}}}, Out: vk.ROut{Name: verifGroups[3]}},
 		},
-		Fallback: vk.ROut{Name: "g0"},
+		Fallback: vk.ROut{Name: verifGroups[0]},
 	}
 	rules, fb, err := verifParseRouting(prog.Text())
 	if err != nil {
@@ -775,7 +775,7 @@ func verifC18Level2(m *vk.Monitor, env *verifC18Env, classes []verifC18Sniff, ds
 		name string
 		idx  consts.OutboundIndex
 	}
-	outs := []l2out{{"g1", consts.OutboundIndex(name2id["g1"])}, {"g0", consts.OutboundIndex(name2id["g0"])}, {"direct", consts.OutboundDirect}, {"control-plane-routing", consts.OutboundControlPlaneRouting}}
+	outs := []l2out{{verifGroups[1], consts.OutboundIndex(name2id[verifGroups[1]])}, {verifGroups[0], consts.OutboundIndex(name2id[verifGroups[0]])}, {"direct", consts.OutboundDirect}, {"control-plane-routing", consts.OutboundControlPlaneRouting}}
 	for _, mode := range modes {
 		cp.dialMode = mode
 		for _, o := range outs {
